@@ -1,0 +1,5 @@
+//go:build !verif
+
+package muxer
+
+func (m *Muxer) verifEv(string, uint16, bool, int, ProtocolRole, string, []byte) {}
